@@ -111,6 +111,15 @@ func genC04(e *emitter, tier string, seed int64) {
 		}
 	}
 	// object-less and non-indexable objects
+	// a literal is a fresh value at every evaluation: a write through it never shows in the next one
+	for _, src := range []string{
+		"t = 0\nfor i = 0; i < 3; i = i + 1 {\n  a = [1, 2]\n  a[0] = a[0] + 100\n  t = t + a[0]\n}\np(t)\n",
+		"for x in [1, 2] {\n  m = {\"k\": [[0, 1], 2]}\n  p(m)\n  m[\"k\"][0][1] = 9\n  m[\"n\"] = x\n}\n",
+		"for i = 0; i < 2; i = i + 1 {\n  a = [\"x\", \"y\"]\n  b = a\n  p(a)\n  b[1] = \"changed\"\n}\n",
+		"for i = 0; i < 2; i = i + 1 {\n  p([1, 2.5, \"s\", true, nil][i])\n  l = [1, [2, 3]]\n  l[1][0] = l[1][0] * 10\n  p(l)\n}\n",
+	} {
+		emitProg(e, src, pt, true, "literal-fresh")
+	}
 	// a subscript is evaluated once per statement, also in a compound assignment (the probe pr records
 	// every evaluation); key "c04:compound-index-evaluated-twice" is a recorded finding
 	for _, src := range []string{"a = [10, 20, 30]\na[pr(0)] += 5\np(a)\n", "m = {\"k\": 1}\nm[pr(\"k\")] *= 3\np(m)\n", "a = [[1, 2], [3, 4]]\na[pr(0)][pr(1)] -= 1\np(a)\n",
